@@ -232,6 +232,12 @@ impl Run {
         let path = evdir.join(format!("{}.json", self.id));
         std::fs::write(&path, serde_json::to_string_pretty(&doc).unwrap() + "\n")
             .expect("write evidence");
+        // a copy of a thorough run's record that survives the next quick run
+        if doc["tier"] == "thorough" {
+            let tdir = evdir.join("thorough");
+            let _ = std::fs::create_dir_all(&tdir);
+            let _ = std::fs::write(tdir.join(format!("{}.json", self.id)), serde_json::to_string_pretty(&doc).unwrap() + "\n");
+        }
 
         if exit == 0 && !vacuous.is_empty() {
             eprintln!(
